@@ -186,6 +186,14 @@ func (e *Engine) registerIntrinsics() {
 		}
 		return res
 	}
+	in["internal/bytealg.IndexByte"] = func(r *Run, fr *Frame, cc *ssa.CallCommon, a []Value) Value {
+		bs, c := sliceBytes(a[0].(*SliceV)), a[1].(*Term)
+		res := BVi(-1, 64)
+		for i := len(bs) - 1; i >= 0; i-- {
+			res = Ite(Eq(bs[i], c), BVi(int64(i), 64), res)
+		}
+		return res
+	}
 	in["internal/bytealg.LastIndexByteString"] = func(r *Run, fr *Frame, cc *ssa.CallCommon, a []Value) Value {
 		s, c := a[0].(*StrV), a[1].(*Term)
 		res := BVi(-1, 64)
